@@ -492,8 +492,8 @@ class regreg_base(ThumbInstruction):
         return tokens[0].encode()
 
 
-def make_regreg(mnemonic, opcode):
-    rdn = Operand("rdn", LowArmRegister, write=True, read=True)
+def make_regreg(mnemonic, opcode, write=True):
+    rdn = Operand("rdn", LowArmRegister, write=write, read=True)
     rm = Operand("rm", LowArmRegister, read=True)
     syntax = Syntax([mnemonic, rdn, ",", rm])
     members = {"syntax": syntax, "rdn": rdn, "rm": rm, "opcode": opcode}
@@ -503,7 +503,7 @@ def make_regreg(mnemonic, opcode):
 And = make_regreg("and", 0b0100000000)
 Orr = make_regreg("orr", 0b0100001100)
 Eor = make_regreg("eor", 0b0100000001)
-Cmp = make_regreg("cmp", 0b0100001010)
+Cmp = make_regreg("cmp", 0b0100001010, write=False)  # only sets the flags
 Lsl = make_regreg("lsl", 0b0100000010)
 Lsr = make_regreg("lsr", 0b0100000011)
 Asr = make_regreg("asr", 0b0100000100)
